@@ -491,7 +491,7 @@ func (e *lfEngine) contract(fr *lfFrame, st *lfState, x *ssa.Call, name string) 
 	case "(crypto/cipher.Block).BlockSize":
 		// field fact (checked separately by the who-writes rule): every store to an
 		// AES128CBC.cipher field is the result of crypto/aes.NewCipher, whose blocks are 16 bytes
-		if strings.HasSuffix(apOf(cc.Value).SelString(), "cipher") {
+		if strings.HasSuffix(apOf(cc.Value).SelString(), fAesCipher) {
 			return vInt{E: linConst(16)}, true
 		}
 		s := linSym(e.newSym("BlockSize()"))
